@@ -200,7 +200,9 @@ fn stages(tier: Tier) -> Vec<Stage> {
         });
     } else {
         for functional in [false, true] {
-            let l = letters(&[false, true], &all_ev, &confs);
+            // plain: the 288 letters about v0 (letters about v1 of a plain predicate: n<=1 above);
+            // functional: all 576 letters
+            let l = letters(if functional { &[false, true] } else { &[false] }, &all_ev, &confs);
             v.push(Stage {
                 name: format!(
                     "n=2 {}: all multisets over {} letters",
@@ -209,7 +211,7 @@ fn stages(tier: Tier) -> Vec<Stage> {
                 ),
                 n: 2,
                 groups: full_family(functional, &l, 2),
-                queries: if functional { q1.clone() } else { q3.clone() },
+                queries: q1.clone(),
             });
         }
     }
@@ -389,7 +391,14 @@ fn main() {
     let mut samples_offered = 0u64;
     never_stored(&mut run);
 
+    // development aid: `--stages <substring>` runs only the stages whose name contains it
+    let only: Option<String> = run.args.iter().position(|a| a == "--stages").and_then(|i| run.args.get(i + 1).cloned());
     for stage in stages(run.tier) {
+        if only.as_ref().map(|o| !stage.name.contains(o.as_str())).unwrap_or(false) {
+            run.cap_hit(&format!("stage filter: '{}' skipped", stage.name));
+            capped = true;
+            continue;
+        }
         if !run.in_budget() {
             capped = true;
             run.cap_hit(&format!("time budget: stage '{}' not started", stage.name));
